@@ -29,6 +29,7 @@ class JobResult:
         self.ok_paths = 0
         self.aborted = 0
         self.limited = 0
+        self.limit_errors = []
         self.errors = []
         self.obligations = 0
         self.discharged = 0
@@ -56,6 +57,8 @@ class JobResult:
             self.aborted += 1
         elif st == 'limit':
             self.limited += 1
+            if len(self.limit_errors) < 2:
+                self.limit_errors.append(r['error'])
         else:
             if len(self.errors) < 5:
                 self.errors.append(r['error'])
